@@ -148,6 +148,9 @@ Definition set_handled (s : state) (h : list rid) : state :=
 
 Definition set_worker (s : state) (w : N) (pc : wpc) : state := set_workers s (aput w pc (workers s)).
 Definition post (s : state) (m : list item) : state := set_mailbox s (mailbox s ++ [m]).
+(* EveryTaskCountsOne: newRequest and unpauseRequest both push peertask.Task{..., Work: 1}; the per-peer cap of
+   go-peertaskqueue bounds the SUM of Work over a peer's active tasks, so with Work = 1 everywhere it bounds their
+   number, which is what [active_count] counts in Worker_Pop — for resumed responses as for new ones *)
 Definition push_task (s : state) (p : peer) (r : rid) : state := set_tq s (tq s ++ [(p, r)]).
 Definition remove_task (s : state) (p : peer) (r : rid) : state :=
   set_tq s (filter (fun x => negb (N.eqb (fst x) p && N.eqb (snd x) r)) (tq s)).
